@@ -491,3 +491,81 @@ Theorem stretch_rendered_in_order :
 Proof. exact CmdConverse.stretch_rendered_in_order. Qed.
 Print Assumptions stretch_rendered_in_order.
 
+
+(* SwitchOperandCmd.v *)
+From Pory Require SwitchOperandCmd.
+Theorem switch_operand_statement :
+  forall (autovars : list (text * autovar)) (switches : list (text * text)) (env_errors : bool)
+    (parse_format : toks -> res (token * text * text * toks)) (consts : list (text * text)) (script : text) (f : nat) 
+    (bs cs : list nat) (sw lp0 name lp : token) (a : arglist) (rp rp0 lb : token) (R : list token) (av : autovar) (v : text),
+  ttype sw = SWITCH ->
+  ttype lp0 = LPAREN ->
+  AutoVarParse.cmd_ok switches env_errors parse_format name lp a rp ->
+  ttype rp0 = RPAREN ->
+  ttype lb = LBRACE ->
+  assoc autovars (tlit name) = Some av ->
+  AutoVarParse.compared_var av (AutoVarParse.parsed_cmd consts name lp a rp (rp0 :: lb :: R)) = Some v ->
+  Datatypes.length (arg_tokens a) < f ->
+  R <> [] ->
+  let ts := sw :: lp0 :: name :: lp :: arg_tokens a ++ rp :: rp0 :: lb :: R in
+  parse_stmt autovars switches env_errors parse_format consts (S (S f)) script bs cs ts =
+  match parse_cases autovars switches env_errors parse_format consts f script (Datatypes.length ts :: bs) cs lb R [] [] false imp0 with
+  | Ok ([], _, ts5) => err_range sw (cur ts5) "switch statement has no cases or default case"
+  | Ok ((_ :: _) as cases, imp', ts5) =>
+      Ok
+        ([SCmd (AutoVarParse.parsed_cmd consts name lp a rp (rp0 :: lb :: R)); SSwitch (Datatypes.length ts) v (tline name) cases],
+         impadd (AutoVarParse.parsed_imp script name lp a rp (rp0 :: lb :: R)) imp', ts5)
+  | Err e => Err e
+  | Panic => Panic
+  | Fuel => Fuel
+  end.
+Proof. exact SwitchOperandCmd.switch_operand_statement. Qed.
+Print Assumptions switch_operand_statement.
+
+Theorem operand_pair_patched :
+  forall (ps : list patch) (pre : list stmt) (c : cmd) (tg : nat) (v : text) (ol : Z) (cases : list (bool * text * Z * list stmt))
+    (rest : list stmt),
+  Forall Tr.simple pre ->
+  exists cases' : list (bool * text * Z * list stmt),
+    Datatypes.length cases' = Datatypes.length cases /\
+    map (pstmt ps) (pre ++ SCmd c :: SSwitch tg v ol cases :: rest) =
+    map (pstmt ps) pre ++ SCmd (pcmd ps c) :: SSwitch tg v ol cases' :: map (pstmt ps) rest /\ Forall Tr.simple (map (pstmt ps) pre).
+Proof. exact SwitchOperandCmd.operand_pair_patched. Qed.
+Print Assumptions operand_pair_patched.
+
+Theorem switch_operand_block :
+  forall (G : list chunk) (B O : tagmap) (pre : list stmt) (c : cmd) (tg : nat) (v : text) (ol : Z) (cases : list (bool * text * Z * list stmt))
+    (rest : list stmt) (p ret : Z),
+  Forall Tr.simple pre ->
+  Tr.tr_block G B O (pre ++ SCmd c :: SSwitch tg v ol cases :: rest) p ret -> SwitchOperandCmd.operand_chunks G p pre c v cases.
+Proof. exact SwitchOperandCmd.switch_operand_block. Qed.
+Print Assumptions switch_operand_block.
+
+Theorem switch_operand_graph :
+  forall (body : list stmt) (w : wst) (pre : list stmt) (c : cmd) (tg : nat) (v : text) (ol : Z) (cases : list (bool * text * Z * list stmt))
+    (rest : list stmt),
+  emit_graph body = Emitter.Ok w ->
+  Worklist.src_ok body ->
+  body = pre ++ SCmd c :: SSwitch tg v ol cases :: rest -> Forall Tr.simple pre -> SwitchOperandCmd.operand_chunks (finals w) 0 pre c v cases.
+Proof. exact SwitchOperandCmd.switch_operand_graph. Qed.
+Print Assumptions switch_operand_graph.
+
+Theorem switch_operand_emitted :
+  forall (mp : option text) (tl : list text) (name : text) (glob optimize : bool) (body : list stmt) (w : wst) (code : list instr)
+    (pre : list stmt) (c : cmd) (tg : nat) (v : text) (ol : Z) (cases : list (bool * text * Z * list stmt)) (rest : list stmt),
+  emit_graph body = Emitter.Ok w ->
+  Worklist.src_ok body ->
+  emit_script mp tl name glob optimize body = Emitter.Ok code ->
+  body = pre ++ SCmd c :: SSwitch tg v ol cases :: rest ->
+  Forall Tr.simple pre ->
+  exists (sid : BinNums.Z) (Z : list instr),
+    code = ILabel name glob :: flat_map (render_stmt mp) pre ++ marker mp (tline (ctok c)) ++ ICmd c :: Z /\
+    ((forall m : text -> bool, Sem2.select_case cases m = []) \/
+     (exists sw Z' : list instr,
+        SwitchOperandCmd.switch_lines mp name v sw /\
+        (Z = sw ++ Z' \/
+         Z = ILabel (lbl name sid) false :: sw ++ Z' \/
+         (exists A : list instr, Z = IGoto (lbl name sid) :: IBlank :: A ++ ILabel (lbl name sid) false :: sw ++ Z')))).
+Proof. exact SwitchOperandCmd.switch_operand_emitted. Qed.
+Print Assumptions switch_operand_emitted.
+
